@@ -1,0 +1,189 @@
+//go:build verif
+
+// Contracts for the deductive verification in /verif (comment-only).
+package keeper
+
+//@ bind github.com/goatnetwork/goat/x/goat/types.BitcoinKeeper => github.com/goatnetwork/goat/x/bitcoin/keeper
+//@ bind github.com/goatnetwork/goat/x/goat/types.LockingKeeper => github.com/goatnetwork/goat/x/locking/keeper
+//@ bind github.com/goatnetwork/goat/x/goat/types.RelayerKeeper => github.com/goatnetwork/goat/x/relayer/keeper
+
+// ---- symbols of the dependency summaries (govc/summ_goat.go) ------------------------------------------
+// consensus context
+//@ smt (declare-fun cometProposer () Bytes)
+//@ smt (declare-fun ctxHeaderHash () Bytes)
+// address codec (bech32): partial decoding / encoding functions
+//@ smt (declare-fun addrDecode (Bytes) Bytes)
+//@ smt (declare-fun addrDecodeErr (Bytes) Int)
+//@ smt (declare-fun addrEncode (Bytes) Bytes)
+//@ smt (declare-fun addrEncodeErr (Bytes) Int)
+// go-ethereum common.BytesToHash / BytesToAddress: crop or left-pad; identity on 32 / 20 byte inputs
+//@ smt (declare-fun bytesToHash (Bytes) Bytes)
+//@   (assert (forall ((b Bytes)) (! (and (= (blen (bytesToHash b)) 32) (=> (= (blen b) 32) (= (bytesToHash b) b))) :pattern ((bytesToHash b)))))
+//@ smt (declare-fun bytesToAddress (Bytes) Bytes)
+//@   (assert (forall ((b Bytes)) (! (and (= (blen (bytesToAddress b)) 20) (=> (= (blen b) 20) (= (bytesToAddress b) b))) :pattern ((bytesToAddress b)))))
+
+// engine workaround: a pointer to an opaque (foreign) struct stored into a captured variable is rendered as the
+// token (objref <object number>), which the engine forgets to declare; a token of a live object is not nil.
+//@ smt (declare-fun objref (Int) Int)
+//@   (assert (forall ((n Int)) (! (not (= (objref n) 0)) :pattern ((objref n)))))
+
+// ---- C09: the execution head advances only by valid child blocks ----------------------------------------
+
+//@ func (msgServer).NewEthBlock
+//@ property C09 C08
+//@ requires inv20: st.bitcoin.Params.DepositTaxRate < 10000 && st.bitcoin.Params.MinDepositAmount >= 1000 && st.bitcoin.Params.ConfirmationNumber >= 1
+//@ requires counter: st.goat.Block.BlockNumber < 18446744073709551615
+//@ ensures proposer: err == nil ==> addrDecode(req.Proposer) == cometProposer() && addrDecode(req.Proposer) == req.Payload.FeeRecipient
+//@ ensures parent: err == nil ==> req.Payload.ParentHash == old(st.goat.Block.BlockHash)
+//@ ensures number: err == nil ==> req.Payload.BlockNumber == old(st.goat.Block.BlockNumber) + 1
+//@ ensures noblob: err == nil ==> req.Payload.BlobGasUsed == 0
+//@ ensures beacon: err == nil ==> req.Payload.BeaconRoot == old(st.goat.BeaconRoot)
+//@ ensures had_head: err == nil ==> old(has(st.goat.Block)) && old(has(st.goat.BeaconRoot))
+//@ ensures new_head: err == nil ==> has(st.goat.Block) && st.goat.Block == *req.Payload
+//@ ensures new_root: err == nil ==> has(st.goat.BeaconRoot) && st.goat.BeaconRoot == ctxHeaderHash()
+//@ ensures only_then: err != nil ==> unchanged(st.goat.Block) && unchanged(st.goat.BeaconRoot)
+//@ modifies st.goat.Block, st.goat.BeaconRoot, st.bitcoin.Params, st.bitcoin.Withdrawals, st.bitcoin.EthTxQueue, st.bitcoin.EthTxNonce, st.locking.Params, st.locking.Locking, st.locking.PowerRanking, st.locking.ValidatorSet, st.locking.Validators, st.locking.Tokens, st.locking.Threshold, st.locking.Slashed, st.locking.EthTxNonce, st.locking.RewardPool, st.locking.EthTxQueue, st.locking.UnlockQueue, st.relayer.Voters, st.relayer.Queue
+
+// VerifyDequeue re-derives the due system transactions (this pops both module queues in the context it is
+// given) and compares them with the head of the block's transaction list.
+//@ func (Keeper).VerifyDequeue
+//@ property C08 C09
+//@ ensures shape: err == nil ==> len(txRoot) == params.GoatHeaderExtraLengthV0 && len(txs) >= bat(txRoot, 0)
+//@ loop 0 invariant idx: -1 <= rangeindex && rangeindex < len(btcTxs)
+//@ loop 0 invariant cnt: goatTxLen == bat(txRoot, 0) - (rangeindex + 1)
+//@ loop 1 invariant idx: -1 <= rangeindex && rangeindex < len(lockingTxs)
+//@ loop 1 invariant cnt: goatTxLen == bat(txRoot, 0) - len(btcTxs) - (rangeindex + 1)
+//@ modifies st.bitcoin.EthTxQueue, st.bitcoin.EthTxNonce, st.locking.EthTxQueue, st.locking.EthTxNonce
+
+// ---- C09: at the end of every block the engine is told exactly the recorded head -------------------------
+// Engine answers are uninterpreted functions of the call number on the path and of the arguments
+// (govc/summ_goat.go): proving engNPerr(0, D, R, Q) == 0 needs call 0 to be NewPayloadV4(D, R, Q) with its error checked.
+//@ smt (declare-fun edOf (T_goat_types_ExecutionPayload) Int)
+//@ smt (declare-fun engNPerr (Int Int Bytes Slc_Bytes) Int)
+//@ smt (declare-fun engNPresp (Int Int Bytes Slc_Bytes) Int)
+//@ smt (declare-fun engNPinvalid (Int Int Bytes Slc_Bytes) Bool)
+//@ smt (declare-fun engNPvalid (Int Int Bytes Slc_Bytes) Bool)
+//@ smt (declare-fun engFCUerr (Int Bytes Bytes Bytes Bool Int) Int)
+//@ smt (declare-fun engFCUresp (Int Bytes Bytes Bytes Bool Int) Int)
+//@ smt (declare-fun engFCUinvalid (Int Bytes Bytes Bytes Bool Int) Bool)
+//@ smt (declare-fun engFCUvalid (Int Bytes Bytes Bytes Bool Int) Bool)
+
+//@ func (Keeper).Finalized
+//@ property C09 C19
+//@ ensures has_head: err == nil ==> has(st.goat.Block)
+//@ ensures new_payload: err == nil ==> engNPerr(0, edOf(st.goat.Block), bytesToHash(st.goat.Block.BeaconRoot), st.goat.Block.Requests) == 0
+//@           && !engNPinvalid(0, edOf(st.goat.Block), bytesToHash(st.goat.Block.BeaconRoot), st.goat.Block.Requests)
+//@ ensures forkchoice: err == nil ==> engFCUerr(1, bytesToHash(st.goat.Block.BlockHash), bytesToHash(st.goat.Block.ParentHash), bytesToHash(st.goat.Block.ParentHash), true, 0) == 0
+//@           && !engFCUinvalid(1, bytesToHash(st.goat.Block.BlockHash), bytesToHash(st.goat.Block.ParentHash), bytesToHash(st.goat.Block.ParentHash), true, 0)
+//@ modifies nothing
+//@ nopanic
+
+// ---- C08: accepted proposals are well-formed ---------------------------------------------------------------
+// txDecode: the application's tx decoder (pure function of the bytes); txMsgs: tx.GetMsgs() (declared in app/);
+// isNewEthBlockMsg(m): the dynamic type of message m is *types.MsgNewEthBlock.
+//@ smt (declare-fun txDecode (Bytes) Int)
+//@ smt (declare-fun isNewEthBlockMsg (Int) Bool)
+//@ smt (define-fun rawMsgCount ((raw Bytes)) Int (len_Slc_Int (txMsgs (txDecode raw))))
+//@ smt (define-fun rawMsgAt ((raw Bytes) (j Int)) Int (select (arr_Slc_Int (txMsgs (txDecode raw))) (+ (off_Slc_Int (txMsgs (txDecode raw))) j)))
+//@ smt (declare-fun decodeReqGasCount (Slc_Bytes) Int)
+//@ smt (declare-fun decodeReqErr (Slc_Bytes) Int)
+
+// The handler returns (ACCEPT, nil) or (nil, err); baseapp turns an error into REJECT.
+//@ func (Keeper).ProcessProposalHandler$1
+//@ property C08 C19
+//@ requires rpp != nil
+//@ requires counter: st.goat.Block.BlockNumber < 18446744073709551615
+//@ ensures accept_or_error: (result != nil) == (err == nil)
+//@ ensures cap: err == nil ==> 1 <= len(rpp.Txs) && len(rpp.Txs) <= 16
+//@ ensures first_alone: err == nil ==> rawMsgCount(rpp.Txs[0]) == 1 && isNewEthBlockMsg(rawMsgAt(rpp.Txs[0], 0))
+//@ ensures no_later: err == nil ==> forall(i, 1, len(rpp.Txs), forall(j, 0, rawMsgCount(rpp.Txs[i]), !isNewEthBlockMsg(rawMsgAt(rpp.Txs[i], j))))
+//@ loop 0 invariant idx: -1 <= rangeindex && rangeindex < len(rpp.Txs)
+//@ loop 0 invariant first_alone: rangeindex >= 0 ==> rawMsgCount(rpp.Txs[0]) == 1 && isNewEthBlockMsg(rawMsgAt(rpp.Txs[0], 0))
+//@ loop 0 invariant no_later: forall(i, 1, rangeindex + 1, forall(j, 0, rawMsgCount(rpp.Txs[i]), !isNewEthBlockMsg(rawMsgAt(rpp.Txs[i], j))))
+//@ loop 1 invariant idx: -1 <= rangeindex && rangeindex < len(msgs)
+//@ loop 1 invariant none: forall(j, 0, rangeindex + 1, !isNewEthBlockMsg(msgs[j]))
+//@ modifies st.bitcoin.EthTxQueue, st.bitcoin.EthTxNonce, st.locking.EthTxQueue, st.locking.EthTxNonce
+//@ nopanic
+
+// Structural checks (goroutine 1) and engine newPayload (goroutine 2) run concurrently; Wait returns nil only if both did.
+//@ func (Keeper).verifyEthBlockProposal
+//@ property C08 C19
+//@ requires msg != nil
+//@ requires counter: st.goat.Block.BlockNumber < 18446744073709551615
+//@ ensures payload: err == nil ==> msg.Payload != nil
+//@ ensures proposer: err == nil ==> addrDecode(msg.Proposer) == cometProposer() && addrDecode(msg.Proposer) == msg.Payload.FeeRecipient
+//@ ensures parent: err == nil ==> msg.Payload.ParentHash == old(st.goat.Block.BlockHash) && msg.Payload.BlockNumber == old(st.goat.Block.BlockNumber) + 1
+//@ ensures beacon: err == nil ==> msg.Payload.BeaconRoot == old(st.goat.BeaconRoot)
+//@ ensures one_gas_request: err == nil ==> decodeReqErr(msg.Payload.Requests) == 0 && decodeReqGasCount(msg.Payload.Requests) == 1
+//@ ensures system_txs_shape: err == nil ==> len(msg.Payload.ExtraData) == params.GoatHeaderExtraLengthV0 && len(msg.Payload.Transactions) >= bat(msg.Payload.ExtraData, 0)
+//@ ensures engine_valid: err == nil ==> engNPerr(0, edOf(*msg.Payload), bytesToHash(msg.Payload.BeaconRoot), msg.Payload.Requests) == 0
+//@           && engNPvalid(0, edOf(*msg.Payload), bytesToHash(msg.Payload.BeaconRoot), msg.Payload.Requests)
+//@ modifies st.bitcoin.EthTxQueue, st.bitcoin.EthTxNonce, st.locking.EthTxQueue, st.locking.EthTxNonce
+//@ nopanic
+
+// goroutine 1: structural checks against the committed state
+//@ func (Keeper).verifyEthBlockProposal$1
+//@ property C08 C19
+//@ requires nonnil: *msg != nil && *payload != nil
+//@ requires counter: st.goat.Block.BlockNumber < 18446744073709551615
+//@ ensures proposer: err == nil ==> addrDecode((*msg).Proposer) == cometProposer() && addrDecode((*msg).Proposer) == (*payload).FeeRecipient
+//@ ensures parent: err == nil ==> (*payload).ParentHash == old(st.goat.Block.BlockHash) && (*payload).BlockNumber == old(st.goat.Block.BlockNumber) + 1
+//@ ensures beacon: err == nil ==> (*payload).BeaconRoot == old(st.goat.BeaconRoot)
+//@ ensures one_gas_request: err == nil ==> decodeReqErr((*payload).Requests) == 0 && decodeReqGasCount((*payload).Requests) == 1
+//@ ensures system_txs_shape: err == nil ==> len((*payload).ExtraData) == params.GoatHeaderExtraLengthV0 && len((*payload).Transactions) >= bat((*payload).ExtraData, 0)
+//@ ensures reads_only: *(*payload) == old(*(*payload)) && *(*msg) == old(*(*msg))
+//@ modifies st.bitcoin.EthTxQueue, st.bitcoin.EthTxNonce, st.locking.EthTxQueue, st.locking.EthTxNonce
+//@ nopanic
+
+// goroutine 2: the engine must answer VALID for exactly this payload. It shares *payload with goroutine 1, so it
+// must not write it (C08: "free of data races"): clause payload_untouched.
+//@ func (Keeper).verifyEthBlockProposal$2
+//@ property C08 C19
+//@ requires nonnil: *payload != nil
+//@ ensures engine_valid: err == nil ==> engNPerr(0, edOf(old(*(*payload))), bytesToHash(old((*payload).BeaconRoot)), old((*payload).Requests)) == 0
+//@           && engNPvalid(0, edOf(old(*(*payload))), bytesToHash(old((*payload).BeaconRoot)), old((*payload).Requests))
+//@ ensures payload_untouched: *(*payload) == old(*(*payload))
+//@ modifies payload
+//@ nopanic
+
+// ---- C08: the proposal an honest proposer builds stays within the 16-transaction cap -------------------------
+// goroutine 2 of PrepareProposal: picks verified mempool transactions, at most maxTxLen-1 of them
+//@ func (Keeper).PrepareProposalHandler$1$2
+//@ property C08 C19
+//@ requires empty: len(*memTxs) == 0
+//@ requires rpp_nonnil: *rpp != nil
+//@ ensures cap: err == nil ==> len(*memTxs) + 1 <= maxTxLen
+//@ loop 0 invariant cap: len(*memTxs) + 1 < maxTxLen
+//@ modifies memTxs
+//@ nopanic
+
+// createEthBlockProposal is OUT OF THE ENGINE'S REACH (deferred cancel closure, channel receive, tx signing):
+// TRUSTED frame only. It pops both module queues in the (discarded) prepare-proposal context.
+//@ func (Keeper).createEthBlockProposal
+//@ property C08
+//@ trusted
+//@ modifies st.bitcoin.EthTxQueue, st.bitcoin.EthTxNonce, st.locking.EthTxQueue, st.locking.EthTxNonce
+
+// goroutine 1 of PrepareProposal: builds the block message
+//@ func (Keeper).PrepareProposalHandler$1$1
+//@ property C08 C19
+//@ modifies ethTx, st.bitcoin.EthTxQueue, st.bitcoin.EthTxNonce, st.locking.EthTxQueue, st.locking.EthTxNonce
+//@ nopanic
+
+// PrepareProposal: both goroutines through their contracts (errgroup summary); an error of either is returned.
+// The response struct is foreign (opaque), so len(result.Txs) == 1 + len(memTxs) <= 16 is not stated here; it follows
+// from PrepareProposalHandler$1$2.cap and the append in the last line.
+//@ func (Keeper).PrepareProposalHandler$1
+//@ property C08 C19
+//@ requires rpp != nil
+//@ ensures (result != nil) == (err == nil)
+//@ modifies st.bitcoin.EthTxQueue, st.bitcoin.EthTxNonce, st.locking.EthTxQueue, st.locking.EthTxNonce
+//@ nopanic
+
+// Dequeue: the system transactions handed to the engine when proposing (pops both module queues)
+//@ func (Keeper).Dequeue
+//@ property C08 C19
+//@ loop 0 invariant idx: -1 <= rangeindex && rangeindex < len(btcTxs)
+//@ loop 1 invariant idx: -1 <= rangeindex && rangeindex < len(lockingTxs)
+//@ modifies st.bitcoin.EthTxQueue, st.bitcoin.EthTxNonce, st.locking.EthTxQueue, st.locking.EthTxNonce
+//@ nopanic
